@@ -25,15 +25,22 @@ def _run_chunk(root, cases, workdir, tag, sanitize, timeout):
     if sanitize:
         env["LD_PRELOAD"] = ASAN_LIB
         env["ASAN_OPTIONS"] = "detect_leaks=0:abort_on_error=0:exitcode=77:allocator_may_return_null=1"
-        env["UBSAN_OPTIONS"] = "halt_on_error=1:exitcode=78:print_stacktrace=0"
+        env["UBSAN_OPTIONS"] = "halt_on_error=0:print_stacktrace=0"      # reports are attributed through the @@CASE markers
     results = {}
     start = 0
     reports = {}
     guard = 0
-    while start < len(cases) and guard < 200:
+    ub = {}
+    while start < len(cases) and guard < 3000:
         guard += 1
         p = subprocess.run([C.PY, WORKER, root, cp, op] + (["exact"] if sanitize else ["guard"]) + [str(start)],
                            env=env, stdout=subprocess.PIPE, stderr=subprocess.PIPE, timeout=timeout)
+        cur = None
+        for line in p.stderr.decode("utf-8", "replace").split("\n"):
+            if line.startswith("@@CASE "):
+                cur = int(line[7:])
+            elif "runtime error" in line and cur is not None and cur not in ub:
+                ub[cur] = line.strip()[:300]
         done = -1
         for line in open(op):
             line = line.strip()
@@ -61,6 +68,9 @@ def _run_chunk(root, cases, workdir, tag, sanitize, timeout):
             kind = "ubsan"
         results[k] = [kind, p.returncode, _first_report_line(err)]
         start = k + 1
+    for i, line in ub.items():
+        if results.get(i, ["missing"])[0] in ("ok", "exc"):
+            results[i] = ["ubsan", 0, line]
     return [results.get(i, ["missing"]) for i in range(len(cases))]
 
 
